@@ -234,8 +234,17 @@ CONFIG2 = ("ip access-list extended EDGE\n permit ip object-group SRV any\n deny
            "interface Serial0/0.1 point-to-point\n ip address 10.9.9.1 255.255.255.252\n ip access-group EDGE in\n"
            "interface ATM1/0.100 multipoint\n ip access-group EDGE out\n"
            "interface Vlan10\n description uplink to core\n ip access-group MISSING in\n")
+# one group name under both kinds of heading, referenced with both keywords; the same ACL name twice
+CONFIG3 = ("object-group network G\n host 10.0.0.1\n 10.1.0.0 255.255.0.0\nobject-group ip address G\n 10 host 1.1.1.1\n 20 10.2.0.0/16\n"
+           "ip access-list extended A\n permit ip object-group G any\n permit tcp any object-group G eq 135\n"
+           "ip access-list B\n 10 permit ip addrgroup G any\n 20 permit udp any addrgroup G eq 521\n"
+           "ip access-list extended A\n deny ip any any\n")
 for _t in ("acls", "aces", "addrgroups"):
-    VALID[_t] = [CONFIG, CONFIG2] + VALID["Acl"] + VALID["AddrGroup"]
+    VALID[_t] = [CONFIG, CONFIG2, CONFIG3] + VALID["Acl"] + VALID["AddrGroup"]
+# port numbers that carry a name in some platform / version table only
+VALID["Ace"] += ["permit tcp any any eq 135", "permit tcp any eq 15001 any eq 15002 log", "permit udp any any eq 521",
+                 "permit tcp any eq 3949 any eq 514", "permit udp any eq 514 any range 135 15001"]
+VALID["Port"] += ["eq 135", "eq 15001 15002", "range 514 3949"]
 
 
 @st.composite
@@ -246,6 +255,7 @@ def soup_st(draw, tier):
     mode = draw(st.sampled_from(["soup", "soup", "mutate", "mutate", "mutate", "valid", "blank", "printable"]))
     multiline = target in ("AceGroup", "Acl", "AddrGroup", "acls", "aces", "addrgroups")
     word = st.one_of(st.sampled_from(vocab), st.sampled_from(vocab), st.integers(-1, 70000).map(str),
+                     st.sampled_from(G.named_anywhere()).map(str),
                      st.text(alphabet=G.REMARK_ALPHABET + " \t", min_size=0, max_size=6))
     if mode == "blank":
         text = draw(st.sampled_from(["", " ", "\n", "\t", " \n \n", "\n\n"]))
